@@ -743,4 +743,91 @@ Proof.
       * destruct Hans as (refused & -> & _). apply pushed_CInv; auto. exact I.
 Qed.
 
+(* ================================================================ Part D *)
+Definition qpol (q : query) : bool := match q with QDC => true | _ => false end.
+
+(* what an answer (status, optional certificate) must be for argument id of framework F under
+   semantics sm; pol = true: credulous acceptance, pol = false: skeptical acceptance *)
+Definition answer_ok (sm : sem) (pol cert : bool) (F : af) (id : nat) (r : bool * option (list nat)) : Prop :=
+  (fst r = true <-> if pol then cred sm F [id] else skep sm F [id]) /\
+  match snd r with
+  | Some X => cert = true /\ fst r = pol /\ ext sm F X /\ NoDup X /\ incl X (args F) /\
+              (if pol then In id X else ~ In id X)
+  | None => cert = true -> fst r = negb pol
+  end.
+
+Lemma answer_ok_strip sm pol cert F id ans :
+  answer_ok sm pol true F id ans -> answer_ok sm pol cert F id (if cert then ans else (fst ans, None)).
+Proof.
+  destruct cert; [auto|]. intros [H1 _]. split; [exact H1|]. cbn [snd]. discriminate.
+Qed.
+
+Lemma hit_framework k (s : dsolver) os sm :
+  reach k s os -> k = KCo \/ k = KSt -> CInv sm s -> trailing (s_buf L s) <> [] -> s_af L s = run_ops fresh os.
+Proof.
+  intros Hr Hk [_ C2] Hne. pose proof (reach_frame_inv L leqb _ _ _ Hr) as [Hkind _ Hsy Hsp].
+  unfold DynDefs.synced in Hsy. unfold DynDefs.spec_fw in Hsp. rewrite Hkind in Hsy, Hsp.
+  rewrite (fold_no_update L leqb _ _ (C2 Hne)) in Hsy. destruct Hk as [-> | ->]; congruence.
+Qed.
+
+Lemma trailing_ne (s : dsolver) ev : In ev (trailing (s_buf L s)) -> trailing (s_buf L s) <> [].
+Proof. intros Hin E. rewrite E in Hin. destruct Hin. Qed.
+
+(* THE FUNCTIONAL THEOREM *)
+Theorem dyn_functional oracle thr k s ps os fuel q cert l id s' b c ps' :
+  valid_oracle oracle -> vreach oracle thr k s ps os ->
+  (k = KCo /\ q = QDC) \/ (k = KSt /\ (q = QDC \/ q = QDS)) ->
+  get_argument (run_ops fresh os) l = Some id ->
+  dyn_query oracle L leqb thr fuel s q cert l ps = Done (s', (b, c)) ps' ->
+  answer_ok (sem_of k) (qpol q) cert (af_of (run_ops fresh os)) id (b, c).
+Proof.
+  intros Hvalid Hv Hkq Hl Hq.
+  assert (Hk : k = KCo \/ k = KSt) by tauto.
+  pose proof (vreach_reach L leqb _ _ _ _ _ _ Hv) as Hr.
+  pose proof (reach_frame_inv L leqb _ _ _ Hr) as [Hkind _ _ _].
+  pose proof (vreach_CInv oracle thr k s ps os Hvalid Hv Hk) as Hci.
+  destruct (dyn_query_std_inv L leqb oracle thr fuel s q cert l ps s' (b, c) ps' (ltac:(rewrite Hkind; exact Hk)) Hq)
+    as (ans & -> & [[-> Hdc]|[Hks [-> Hds]]]); apply answer_ok_strip; cbn [qpol].
+  - (* credulous acceptance *)
+    destruct (dc_query_inv L leqb oracle s l ps s' ans ps' Hdc) as
+      [(b0 & X & Hhit & _ & -> & _)|(_ & af & buf & ps1 & Hue & Hrest)].
+    + unfold is_cred in Hhit. destruct (cred_scan_hit _ _ _ _ Hhit) as (-> & ev & Hin & acc & refused & Hev & Hm).
+      fold (trailing (s_buf L s)) in Hin. pose proof (proj1 Hci ev Hin) as Hok.
+      rewrite (hit_framework k s os _ Hr Hk Hci (trailing_ne s ev Hin)) in Hok.
+      assert (G : ext (sem_of k) (af_of (run_ops fresh os)) X /\ NoDup X /\ incl X (live_ids L (run_ops fresh os)) /\ In id X).
+      { destruct Hev as [-> | ->]; cbn [cache_ok] in Hok; destruct Hok as (K1 & K2 & K3 & K4 & _); eauto 6. }
+      destruct G as (K1 & K2 & K3 & K4). split; cbn [fst snd].
+      * split; [intros _|reflexivity]. exists X. split; [exact K1|]. exists id. split; [left; reflexivity|exact K4].
+      * auto 7.
+    + destruct (query_ready oracle thr k s ps os af buf ps1 Hv Hk Hue) as (e & He & Hrd & Hsem & Haf & _).
+      destruct (Hrest e He) as (id' & v & Hid & Hvv & _ & Hans).
+      assert (id' = id) by (rewrite Haf in Hid; congruence). subst id'.
+      pose proof (dc_answer oracle af e ps1 l id v Hvalid Hrd Hid Hvv) as Hda. rewrite Hsem, Haf in Hda.
+      destruct (answer_of oracle ps1 (e_assum e ++ [zlit v])) as [m| |]; [| |destruct Hans].
+      * destruct Hans as (acc & _ & _ & ->). destruct Hda as (K1 & K2 & K3 & K4 & _). split; cbn [fst snd].
+        -- split; [intros _|reflexivity]. eexists. split; [exact K1|]. exists id. split; [left; reflexivity|exact K4].
+        -- auto 7.
+      * destruct Hans as (_ & ->). split; cbn [fst snd]; [|reflexivity]. split; [discriminate|]. intros H. contradiction.
+  - (* skeptical acceptance (stable) *)
+    destruct (st_ds_query_inv L leqb oracle s l ps s' ans ps' Hds) as
+      [(b0 & X & Hhit & _ & -> & _)|(_ & af & buf & ps1 & Hue & Hrest)].
+    + unfold is_skep in Hhit. destruct (skep_scan_hit L leqb _ _ _ _ Hhit) as (-> & ev & Hin & acc & refused & Hev & Hm).
+      fold (trailing (s_buf L s)) in Hin. pose proof (proj1 Hci ev Hin) as Hok.
+      rewrite (hit_framework k s os _ Hr Hk Hci (trailing_ne s ev Hin)) in Hok.
+      assert (G : ext (sem_of k) (af_of (run_ops fresh os)) X /\ NoDup X /\ incl X (live_ids L (run_ops fresh os)) /\ ~ In id X).
+      { destruct Hev as [-> | ->]; cbn [cache_ok] in Hok; destruct Hok as (K1 & K2 & K3 & _ & K5); eauto 6. }
+      destruct G as (K1 & K2 & K3 & K4). split; cbn [fst snd].
+      * split; [discriminate|]. intros Hsk. destruct (Hsk X K1) as (a & [<-|[]] & Ha). contradiction.
+      * auto 7.
+    + destruct (query_ready oracle thr k s ps os af buf ps1 Hv Hk Hue) as (e & He & Hrd & Hsem & Haf & _).
+      destruct (Hrest e He) as (id' & v & Hid & Hvv & _ & Hans).
+      assert (id' = id) by (rewrite Haf in Hid; congruence). subst id'.
+      pose proof (ds_answer oracle af e ps1 l id v Hvalid Hrd Hid Hvv) as Hda. rewrite Hsem, Haf in Hda.
+      destruct (answer_of oracle ps1 (e_assum e ++ [znlit v])) as [m| |]; [| |destruct Hans].
+      * destruct Hans as (refused & _ & _ & ->). destruct Hda as (K1 & K2 & K3 & K4 & _). split; cbn [fst snd].
+        -- split; [discriminate|]. intros Hsk. destruct (Hsk _ K1) as (a & [<-|[]] & Ha). contradiction.
+        -- auto 7.
+      * destruct Hans as (refused & _ & ->). split; cbn [fst snd]; [|reflexivity]. split; [intros _; exact Hda|reflexivity].
+Qed.
+
 End DynFun.
